@@ -983,11 +983,13 @@ func FromV3SchemaRef(schema *openapi3.SchemaRef, components *openapi3.Components
 		v2Schema.AllOf[i], _ = FromV3SchemaRef(v, components)
 	}
 	if schema.Value.PermitsNull() {
-		schema.Value.Nullable = false
-		if schema.Value.Extensions == nil {
-			v2Schema.Extensions = make(map[string]any)
+		// a copy: the OpenAPI 3 schema being converted must stay as it is
+		extensions := make(map[string]any, len(schema.Value.Extensions)+1)
+		for k, v := range schema.Value.Extensions {
+			extensions[k] = v
 		}
-		v2Schema.Extensions["x-nullable"] = true
+		extensions["x-nullable"] = true
+		v2Schema.Extensions = extensions
 	}
 
 	return &openapi2.SchemaRef{
